@@ -155,7 +155,7 @@ DocumentEndS(t, p0) ==
   LET explicit == p.tok.k = "DocumentEnd"
       a == p.tok.a b == p.tok.b
       p1 == IF explicit THEN Skip(p) ELSE p
-      p2 == IF p1.keepTags THEN p1 ELSE [p1 EXCEPT !.tags = <<>>]
+      p2 == [(IF p1.keepTags THEN p1 ELSE [p1 EXCEPT !.tags = <<>>]) EXCEPT !.anchors = <<>>]   \* anchors end with their document
   IN IF explicit THEN Ret([p2 EXCEPT !.state = "ImplicitDocumentStart"], Ev0("DocumentEnd", a, b))
      ELSE IF p2.tok.k \in {"VersionDirective", "TagDirective"} THEN Bad(PErr(p2, "missing explicit document end marker before directive", a))
      ELSE Ret([p2 EXCEPT !.state = "DocumentStart"], Ev0("DocumentEnd", a, b))
